@@ -1290,3 +1290,16 @@ mut("version_get_error_breaks_inner_loop_only", ["C15", "C08", "C01"], "VERD-1",
     note="a damaged newer table is skipped and an older value from a deeper level is returned")
 mut("recovery_flush_with_base_version", ["C16", "C02"], "GRD-22", patch="recovery_flush_with_base_version.diff",
     note="a table written during WAL replay is placed below level 0 although earlier replayed WALs' tables are still pending")
+
+# ---- GRD-23
+mut("read_sample_charges_single_file_keys", ["C09"], "GRD-23", file="src/versioning/version.rs",
+    old="""        if num_files_with_key >= 2 {
+            return self.update_stats(&seek_charge_metadata);""",
+    new="""        if num_files_with_key >= 1 {
+            return self.update_stats(&seek_charge_metadata);""",
+    note="sustained scanning walks the only file holding a key down to the last level; the next seek compaction trips an assertion")
+benign("read_sample_threshold_as_greater_than_one", ["C09", "C10"], "src/versioning/version.rs",
+    old="""        if num_files_with_key >= 2 {
+            return self.update_stats(&seek_charge_metadata);""",
+    new="""        if num_files_with_key > 1 {
+            return self.update_stats(&seek_charge_metadata);""")
